@@ -205,6 +205,42 @@ def satisfiable(rels, name="witness", timeout_ms=20000, use_assumptions=True):
     return check(cons, name=name, timeout_ms=timeout_ms, enc=enc)
 
 
+def _pins(names, rng):
+    ctx = S.current()
+    pins = []
+    for n in names:
+        info = ctx.vars[n]
+        lo = info.get("lo")
+        hi = info.get("hi")
+        if lo is None:
+            lo = Fraction(1, 10) if info.get("positive") else Fraction(-2)
+        if hi is None:
+            hi = Fraction(3)
+        lo, hi = Fraction(lo), Fraction(hi)
+        val = lo + (hi - lo) * Fraction(rng.randint(1, 97), 98)
+        pins.append(("==", Sym({((n, 1),): Fraction(1)}) - val))
+    return pins
+
+
+def witness(rels, name="witness", timeout_ms=20000, rng=None, tries=4):
+    """Reachability twin: a model of assumptions + rels.  Tried first with all input variables pinned to
+    seeded rationals (the solver still has to solve for every atom and check every assumption), then free."""
+    import random
+    rng = rng or random.Random(0)
+    ctx = S.current()
+    names = set()
+    for _, s_ in rels:
+        names |= _closure_vars(s_)
+    for _, s_ in ctx.assumptions:
+        names |= _closure_vars(s_)
+    names = sorted(n for n in names if ctx.vars.get(n, {}).get("kind") in ("input", "const"))
+    for k in range(tries):
+        v, env = satisfiable(list(rels) + _pins(names, rng), name=name + ":pinned%d" % k, timeout_ms=timeout_ms)
+        if v == "sat":
+            return v, env
+    return satisfiable(rels, name=name + ":free", timeout_ms=timeout_ms)
+
+
 def find_model(residual, name="cex", extra=(), timeout_ms=10000, rng=None, tries=6, pin_candidates=None):
     """Search a model of residual != 0 (plus assumptions).  When nlsat is slow the
     search is helped by pinning input variables to small rationals; a model is a
